@@ -131,6 +131,105 @@ MUTANTS = [
     M("benign-server-double-negation", SRV,
       "        if testv_is_good:\n            # now apply the write vectors",
       "        if not (not testv_is_good):\n            # now apply the write vectors", None),
+    # ---- C12.9 (gap review) existing share tested as if absent
+    M("server-existing-share-tested-as-empty", SRV,
+      "            if sharenum in shares:\n                if not shares[sharenum].check_testv(testv):",
+      "            if sharenum not in shares:\n                if not shares[sharenum].check_testv(testv):", "C12.9"),
+    M("benign-server-absent-branch-first", SRV,
+      "            if sharenum in shares:\n                if not shares[sharenum].check_testv(testv):\n"
+      "                    self.log(\"testv failed: [%d]: %r\" % (sharenum, testv))\n                    return False\n"
+      "            else:\n                # compare the vectors against an empty share, in which all\n"
+      "                # reads return empty strings.\n                if not EmptyShare().check_testv(testv):\n"
+      "                    self.log(\"testv failed (empty): [%d] %r\" % (sharenum,\n"
+      "                                                                testv))\n                    return False\n",
+      "            if sharenum not in shares:\n                absent = EmptyShare()\n"
+      "                if not absent.check_testv(testv):\n"
+      "                    self.log(\"testv failed (empty): [%d] %r\" % (sharenum, testv))\n                    return False\n"
+      "            else:\n                if not shares[sharenum].check_testv(testv):\n"
+      "                    self.log(\"testv failed: [%d]: %r\" % (sharenum, testv))\n                    return False\n", None),
+    # ---- C12.10 the answer handler cannot die before marking
+    M("answer-log-parent-unbound", PUB,
+      "        lp = self.log(\"_got_write_answer from %r, share %d\" %", "        self.log(\"_got_write_answer from %r, share %d\" %",
+      "C12.10"),
+    M("answer-surprise-set-unbound", PUB,
+      "        surprise_shares = set(read_data.keys()) - set([writer.shnum])\n",
+      "        if self.versioninfo:\n            surprise_shares = set(read_data.keys()) - set([writer.shnum])\n", "C12.10"),
+    M("benign-surprised-flag-hoisted", PUB,
+      "        surprised = False\n        for shnum in surprise_shares:\n", "        for shnum in surprise_shares:\n", None,
+      edits=[(PUB, "        wrote, read_data = answer\n", "        wrote, read_data = answer\n        surprised = False\n")]),
+    # ---- C12.11 what is compared / withheld
+    M("surprise-filter-other-servers", PUB,
+      "            shares.extend([x.shnum for x in writers if x.server == server])\n",
+      "            shares.extend([x.shnum for x in writers if x.server != server])\n", "C12.11"),
+    M("surprise-withholds-all-goal-shnums", PUB,
+      "        surprise_shares -= known_shnums\n",
+      "        surprise_shares -= set([s for (p, s) in self.goal])\n", "C12.11"),
+    M("surprise-reads-second-vector", PUB,
+      "            checkstring = read_data[shnum][0]\n", "            checkstring = read_data[shnum][1]\n", "C12.11"),
+    M("surprise-checkstring-unbound", PUB,
+      "            checkstring = read_data[shnum][0]\n", "", ["C12.10", "C12.11"]),
+    M("surprise-set-only-goal-shares", PUB,
+      "        surprise_shares = set(read_data.keys()) - set([writer.shnum])\n",
+      "        surprise_shares = set([s for (p, s) in self.goal if p == server]) - set([writer.shnum])\n", "C12.11"),
+    M("sdmf-reads-nothing-back", LAY,
+      "        self._readvs = [(0, struct.calcsize(PREFIX))]\n", "        self._readvs = []\n", "C12.11"),
+    M("benign-known-shnums-as-comprehension", PUB,
+      "        shares = []\n        for shnum, writers in self.writers.items():\n"
+      "            shares.extend([x.shnum for x in writers if x.server == server])\n        known_shnums = set(shares)\n",
+      "        known_shnums = set(x.shnum for ws in self.writers.values() for x in ws if server == x.server)\n", None),
+    M("benign-known-shnums-explicit-loop", PUB,
+      "            shares.extend([x.shnum for x in writers if x.server == server])\n",
+      "            for x in writers:\n                if x.server == server:\n                    shares.append(x.shnum)\n", None),
+    # ---- C12.12 every answer is awaited
+    M("writer-deferred-not-collected", PUB, "                ds.append(d)\n", "", "C12.12"),
+    M("finish-fires-on-first-answer", PUB,
+      "        return defer.DeferredList(ds)\n", "        return defer.DeferredList(ds, fireOnOneCallback=True)\n", "C12.12"),
+    M("push-not-chained-on-answers", PUB,
+      "        d.addCallback(_change_state)\n        d.addCallback(self._push)\n        return d\n",
+      "        self._state = DONE_STATE\n        return self._push()\n", "C12.12"),
+    M("benign-deferredlist-in-local", PUB,
+      "        return defer.DeferredList(ds)\n", "        dl = defer.DeferredList(ds)\n        return dl\n", None),
+    # ---- C12.13 a surprise is reported
+    M("surprised-push-gives-up-silently", PUB,
+      "        if num_shnums < self.required_shares or self.surprised:\n            return self._failure()\n",
+      "        if num_shnums < self.required_shares:\n            return self._failure()\n"
+      "        if self.surprised:\n            self.log(\"uncoordinated write detected, giving up\")\n            return\n", "C12.13"),
+    M("benign-push-tests-split", PUB,
+      "        if num_shnums < self.required_shares or self.surprised:\n            return self._failure()\n",
+      "        if self.surprised:\n            return self._failure()\n"
+      "        if num_shnums < self.required_shares:\n            return self._failure()\n", None),
+    # ---- C12.14 the publish result travels back through modify()
+    M("modify-once-drops-deferred", FN, "        d.addCallback(_apply)\n        return d\n", "        d.addCallback(_apply)\n", "C12.14"),
+    M("apply-does-not-return-upload", FN,
+      "            return self._upload(new_contents)\n        d.addCallback(_apply)",
+      "            self._upload(new_contents)\n        d.addCallback(_apply)", "C12.14"),
+    M("retry-result-dropped", FN,
+      "                                                  backoffer, False))\n            return d2\n",
+      "                                                  backoffer, False))\n", "C12.14"),
+    M("retry-callback-drops-next-attempt", FN,
+      "            d2.addCallback(lambda ignored:\n                           self._modify_and_retry(modifier,\n"
+      "                                                  backoffer, False))\n",
+      "            def _again(ignored):\n                self._modify_and_retry(modifier, backoffer, False)\n"
+      "            d2.addCallback(_again)\n", "C12.14"),
+    M("benign-modify-once-returns-chain", FN,
+      "        d.addCallback(_apply)\n        return d\n", "        return d.addCallback(_apply)\n", None),
+    # ---- C12.15 no zero-length test vector
+    M("mdmf-empty-checkstring-test-inverted", LAY,
+      "        if checkstring == b\"\":\n            # We special-case this",
+      "        if checkstring != b\"\":\n            # We special-case this", "C12.15"),
+    M("mdmf-empty-checkstring-special-case-dropped", LAY,
+      "        if checkstring == b\"\":\n            # We special-case this",
+      "        if checkstring is None:\n            # We special-case this", "C12.15"),
+    M("sdmf-empty-checkstring-special-case-reverted", LAY,
+      "        if checkstring == b\"\":\n            # An empty checkstring means \"the share must still be empty\".\n",
+      "        if checkstring is None:\n            # An empty checkstring means \"the share must still be empty\".\n", "C12.15",
+      note="the state before the repair c2a4145: set_checkstring(b'') stored (0, 0, b''), which any share contents satisfy"),
+    M("benign-mdmf-empty-checkstring-by-length", LAY,
+      "        if checkstring == b\"\":\n            # We special-case this",
+      "        if len(checkstring) == 0:\n            # We special-case this", None),
+    M("benign-sdmf-empty-checkstring-by-truth", LAY,
+      "        if checkstring == b\"\":\n            # An empty checkstring means \"the share must still be empty\".\n",
+      "        if not checkstring:\n            # An empty checkstring means \"the share must still be empty\".\n", None),
     # ---- vanished anchor
     M("vanish-got-write-answer", PUB,
       "    def _got_write_answer(self, answer, writer, started):", "    def _got_write_answerX(self, answer, writer, started):",
